@@ -541,6 +541,134 @@ theorem setBackward_leaves_views (bk : Bool) (it : It σ) (h : it.WF) (hd : it.d
     simp only [setBackward, hb, if_false, release, leaves, List.map_append, release_leaves]
     rw [map_view_release _ wa', map_view_release _ wb', ha', hb']
 
+/-! ## appends behind a page boundary
+
+Between two pages of one read (`crsr.commit`, `WaitNewData`) the cursor is `Release`d and writers may append to the
+partitions. `Release` resets the `eof` flags (and `st = 3`) precisely so that nothing the mixers remember can be invalidated by
+records that arrive *after everything that is still undelivered*: the selections that survive a `Release` (`st = 1/2`, with the
+buffered head) stay the ones the merge would make. -/
+
+/-- the state `Release` leaves every mixer in: no `eof` flag set, not "both ended" -/
+def Released : It σ → Prop
+  | .leaf _ => True
+  | .mix m a b => m.eof1 = false ∧ m.eof2 = false ∧ m.st ≠ 3 ∧ a.Released ∧ b.Released
+
+theorem release_Released (it : It σ) : it.release.Released := by
+  induction it with
+  | leaf s => trivial
+  | mix m a b iha ihb =>
+    simp only [release, Released]
+    refine ⟨trivial, trivial, ?_, iha, ihb⟩
+    by_cases h : m.st = 3 <;> simp [h]
+
+/-- `e` is later than everything in `H` (the events that were still undelivered when it arrived) -/
+def Late (H : List Ev) (e : Ev) : Prop := ∀ x ∈ H, x.ts < e.ts
+
+/-- what an append may do to a source, seen from the mixer (forward): the source stays well formed and in its direction, a
+source that had been asked stays asked, a non-empty stream keeps its head, and what shows up in a stream that had ended is
+later than everything in `H` -/
+def GrowsTo (H : List Ev) (s s' : σ) : Prop :=
+  LawfulSource.wf s' ∧ LawfulSource.dir s' = LawfulSource.dir s ∧
+  (LawfulSource.settled s → LawfulSource.settled s') ∧
+  (∀ x, (LawfulSource.view s).head? = some x → (LawfulSource.view s').head? = some x) ∧
+  (LawfulSource.view s = [] → ∀ e ∈ LawfulSource.view s', Late H e)
+
+theorem mapLeaves_leaves (f : σ → σ) (it : It σ) : (it.mapLeaves f).leaves = it.leaves.map f := by
+  induction it with
+  | leaf s => simp [mapLeaves, leaves]
+  | mix m a b iha ihb => simp [mapLeaves, leaves, iha, ihb]
+
+/-- the selection and the head of a forward merge do not change when both streams grow in the `GrowsTo` way -/
+theorem sel_grow (H va vb va' vb' : List Ev) (hHa : ∀ x ∈ va, x ∈ H) (hHb : ∀ x ∈ vb, x ∈ H)
+    (a4 : ∀ x, va.head? = some x → va'.head? = some x) (a5 : va = [] → ∀ e ∈ va', Late H e)
+    (b4 : ∀ x, vb.head? = some x → vb'.head? = some x) (b5 : vb = [] → ∀ e ∈ vb', Late H e)
+    (hne : sel false va vb ≠ 3) :
+    sel false va' vb' = sel false va vb ∧ (mergeSpec false va' vb').head? = (mergeSpec false va vb).head? := by
+  cases va with
+  | nil =>
+    cases vb with
+    | nil => simp [sel] at hne
+    | cons y ys =>
+      have hy := b4 y rfl
+      cases vb' with
+      | nil => simp at hy
+      | cons y' ys' =>
+        simp only [List.head?_cons, Option.some.injEq] at hy; subst hy
+        cases va' with
+        | nil => simp [sel]
+        | cons e es =>
+          have hl : y'.ts < e.ts := a5 rfl e (by simp) y' (hHb y' (by simp))
+          have hp : pick false e y' = false := by simp [pick]; omega
+          simp [sel, mergeSpec_cons_cons, hp]
+  | cons x xs =>
+    have hx := a4 x rfl
+    cases va' with
+    | nil => simp at hx
+    | cons x' xs' =>
+      simp only [List.head?_cons, Option.some.injEq] at hx; subst hx
+      cases vb with
+      | nil =>
+        cases vb' with
+        | nil => simp [sel]
+        | cons e es =>
+          have hl : x'.ts < e.ts := b5 rfl e (by simp) x' (hHa x' (by simp))
+          have hp : pick false x' e = true := by simp [pick]; omega
+          simp [sel, mergeSpec_cons_cons, hp]
+      | cons y ys =>
+        have hy := b4 y rfl
+        cases vb' with
+        | nil => simp at hy
+        | cons y' ys' =>
+          simp only [List.head?_cons, Option.some.injEq] at hy; subst hy
+          simp only [sel, mergeSpec_cons_cons]
+          split <;> simp
+
+/-- **a released tree whose sources grow stays a correct merger**: every mixer state that survives `Release` is still the
+state the merge of the *grown* streams prescribes -/
+theorem mapLeaves_grow (f : σ → σ) (H : List Ev) (it : It σ) (h : it.WF) (hr : it.Released) (hd : it.dir = false)
+    (hH : ∀ x ∈ it.view, x ∈ H) (hf : ∀ s ∈ it.leaves, GrowsTo H s (f s)) :
+    (it.mapLeaves f).WF ∧ (it.mapLeaves f).dir = false ∧ (it.settled → (it.mapLeaves f).settled) ∧
+    (∀ x, it.view.head? = some x → (it.mapLeaves f).view.head? = some x) ∧
+    (it.view = [] → ∀ e ∈ (it.mapLeaves f).view, Late H e) := by
+  induction it with
+  | leaf s =>
+    obtain ⟨g1, g2, g3, g4, g5⟩ := hf s (by simp [leaves])
+    exact ⟨g1, by rw [← hd]; exact g2, g3, g4, g5⟩
+  | mix m a b iha ihb =>
+    obtain ⟨wa, wb, da, db, _, _, hst⟩ := h
+    obtain ⟨r1, r2, r3, ra, rb⟩ := hr
+    have hb : m.bkwd = false := hd
+    have hHa : ∀ x ∈ a.view, x ∈ H := fun x hx => hH x (by simp only [view]; exact (mem_mergeSpec _ _ _ _).mpr (Or.inl hx))
+    have hHb : ∀ x ∈ b.view, x ∈ H := fun x hx => hH x (by simp only [view]; exact (mem_mergeSpec _ _ _ _).mpr (Or.inr hx))
+    obtain ⟨A1, A2, A3, A4, A5⟩ := iha wa ra (by rw [da, hb]) hHa
+      (fun s hs => hf s (by simp only [leaves, List.mem_append]; exact Or.inl hs))
+    obtain ⟨B1, B2, B3, B4, B5⟩ := ihb wb rb (by rw [db, hb]) hHb
+      (fun s hs => hf s (by simp only [leaves, List.mem_append]; exact Or.inr hs))
+    simp only [mapLeaves, WF, dir, settled, view, hb] at *
+    refine ⟨⟨A1, B1, A2, B2, by simp [r1], by simp [r2], ?_⟩, trivial, fun _ => trivial, ?_, ?_⟩
+    · rcases hst with h0 | ⟨hs1, hs2, hs3⟩
+      · exact Or.inl h0
+      · right
+        have hne : sel false a.view b.view ≠ 3 := by rw [← hs1]; exact r3
+        have G := sel_grow H _ _ _ _ hHa hHb A4 A5 B4 B5 hne
+        refine ⟨hs1.trans G.1.symm, ?_, ?_⟩
+        · intro h1; exact ⟨A4 _ (hs2 h1).1, A3 (hs2 h1).2⟩
+        · intro h2; exact ⟨B4 _ (hs3 h2).1, B3 (hs3 h2).2⟩
+    · intro x hx
+      have hne : sel false a.view b.view ≠ 3 := by
+        intro h3
+        obtain ⟨ea, eb⟩ := mergeSpec_sel3 h3
+        rw [ea, eb] at hx; simp at hx
+      rw [(sel_grow H _ _ _ _ hHa hHb A4 A5 B4 B5 hne).2]; exact hx
+    · intro he e hm
+      have hl : (mergeSpec false a.view b.view).length = 0 := by rw [he]; rfl
+      rw [(mergeSpec_perm _ _ _).length_eq, List.length_append] at hl
+      have ea : a.view = [] := List.eq_nil_of_length_eq_zero (by omega)
+      have eb : b.view = [] := List.eq_nil_of_length_eq_zero (by omega)
+      rcases (mem_mergeSpec _ _ _ _).mp hm with hm | hm
+      · exact A5 ea e hm
+      · exact B5 eb e hm
+
 end It
 
 /-! ## the in-memory leaf is a lawful source -/
@@ -685,6 +813,32 @@ instance : LawfulSource Leaf where
   next_spec := next_spec
   release_spec := fun _ h => ⟨rfl, h, rfl, id⟩
   setBackward_spec := fun _ _ h => ⟨h, rfl⟩
+
+/-- appending a late record to the slice under a forward-running in-memory iterator is a growth in the sense of `GrowsTo` -/
+theorem append_growsTo (H : List Ev) (l : Leaf) (r : Rec) (hw : l.wf) (hb : l.bkwd = false)
+    (hl : It.Late H (l.ev r)) : It.GrowsTo H l (l.append r) := by
+  obtain ⟨h1, h2⟩ := hw
+  have hv : (l.append r).view = l.view ++ [l.ev r] := by
+    simp only [view, append, hb, Bool.false_eq_true, if_false]
+    rw [List.drop_append_of_le_length (by omega)]
+    simp only [List.map_append, List.map_cons, List.map_nil]
+    rfl
+  refine ⟨⟨h1, by simp only [append, List.length_append, List.length_singleton]; omega⟩, rfl, ?_, ?_, ?_⟩
+  · intro hs
+    simpa [LawfulSource.settled, settled, append, hb] using hs
+  · intro x hx
+    show (l.append r).view.head? = some x
+    have hx' : l.view.head? = some x := hx
+    rw [hv]
+    cases hvv : l.view with
+    | nil => rw [hvv] at hx'; simp at hx'
+    | cons y ys => rw [hvv] at hx'; simpa using hx'
+  · intro he e hm
+    have he' : l.view = [] := he
+    have hm' : e ∈ (l.append r).view := hm
+    rw [hv, he'] at hm'
+    simp only [List.nil_append, List.mem_singleton] at hm'
+    rw [hm']; exact hl
 
 end Leaf
 
